@@ -6,28 +6,16 @@ HARNESS = "Go harness (generators, projection of observables to Coq terms, spec 
 
 PROFILE_MODEL = ["Base", "Time", "Types", "SchemaDefs", "ConcDefs", "Generated", "Profile"]
 
-PROPS = {
-    "C06": dict(
-        model_files=PROFILE_MODEL,
-        trusted_base=[KERNEL, GEN, HARNESS,
-                      "hand-written model Profile.v (verify_conditions, retrieve_info_of) tied to validate.go / retrieve_assertion.go by the correspondence run",
-                      "Time.v model of time.Parse(RFC3339) (differentially tested against Go)"],
-        assumptions=["encoding/xml decoding of Conditions into types.Conditions is covered by the XML-level checks (C08), not here",
-                     "time.Parse is modelled (Time.v), not verified"],
-    ),
-    "C03": dict(
-        model_files=PROFILE_MODEL,
-        trusted_base=[KERNEL, GEN, HARNESS,
-                      "hand-written model Profile.v (validate and the attribute checks) tied to validate.go / decode_response.go by the correspondence run",
-                      "Time.v model of time.Parse(RFC3339) (differentially tested against Go)"],
-        assumptions=["struct-level statement: that every decode path runs this validation is checked by the XML-level runs (C01/C08 case streams) and, once built, the tree-level theorems",
-                     "time.Parse is modelled (Time.v), not verified"],
-    ),
-    "C05": dict(
-        model_files=PROFILE_MODEL,
-        trusted_base=[KERNEL, GEN, HARNESS,
-                      "hand-written model Profile.v (validate, verify_conditions) tied to validate.go by the correspondence run",
-                      "Time.v model of time.Parse(RFC3339) and of Before/After on instants (differentially tested against Go)"],
-        assumptions=["time.Parse is modelled (Time.v), not verified; monotonic-clock readings are not modelled (the SP clock is an instant)"],
-    ),
-}
+PROPS = {}
+
+def _load_fragments():
+    import glob, os, importlib.util
+    d = os.path.join(os.path.dirname(os.path.abspath(__file__)), "props.d")
+    for f in sorted(glob.glob(os.path.join(d, "*.py"))):
+        spec = importlib.util.spec_from_file_location("props_fragment_" + os.path.basename(f)[:-3], f)
+        m = importlib.util.module_from_spec(spec)
+        m.KERNEL, m.GEN, m.HARNESS, m.PROFILE_MODEL = KERNEL, GEN, HARNESS, PROFILE_MODEL
+        spec.loader.exec_module(m)
+        PROPS.update(m.PROPS)
+
+_load_fragments()
